@@ -80,7 +80,28 @@ def run_case(scheme, cid, cfg, cls, db, acc, rng):
         edb1 = sch.EDBSetup(key, copy.deepcopy(db))
         if reseed is not None:
             global_random.seed(reseed)
-        edb2 = sch.EDBSetup(key, copy.deepcopy(db))
+        how = rng.random()
+        if how < 0.12:
+            # the second build runs in another thread of the process (after the first has finished)
+            import threading
+            box = []
+            t = threading.Thread(target=lambda: box.append(sch.EDBSetup(key, copy.deepcopy(db))))
+            t.start()
+            t.join(60)
+            edb2 = box[0]
+            variant = ":other-thread"
+            acc.count("second_build_in_another_thread")
+        elif how < 0.24:
+            # ... or after a pause (the process clocks are pushed forward by 11 s to a day)
+            from vlib import instrument
+            with instrument.ClockOffset() as clk:
+                clk.advance(rng.choice([11, 61, 3601, 86401]))
+                edb2 = sch.EDBSetup(key, copy.deepcopy(db))
+            variant = ":after-idle-time"
+            acc.count("second_build_after_idle_time")
+        else:
+            edb2 = sch.EDBSetup(key, copy.deepcopy(db))
+            variant = ""
         if reseed is not None:
             global_random.seed()
         raw1 = edb1.serialize()
@@ -138,7 +159,7 @@ def run_case(scheme, cid, cfg, cls, db, acc, rng):
         acc.count("entries_compared_across", len(u1) + len(u2))
         common = set(u1) & set(u2)
         if common:
-            acc.violation(f"{short}:ciphertexts-repeat-across-setups" + (":after-reseed" if reseed is not None else ""),
+            acc.violation(f"{short}:ciphertexts-repeat-across-setups" + (":after-reseed" if reseed is not None else "") + variant,
                           f"{scheme}: {len(common)} of {len(u1)} ciphertext entries are identical in two indexes built "
                           f"from the same key and database"
                           + (" (the global random generator was re-seeded with the same value before each build)"
